@@ -115,6 +115,7 @@ impl Profile {
             "C19" => {
                 p.store_w = 3;
                 p.registry = true;
+                p.sparse_ids = true;
                 p.queries = 4;
                 p.block_w = 3;
             }
@@ -723,7 +724,24 @@ pub fn gen_history(g: &mut Gen, p: &Profile, contracts_hint: &[&str]) -> History
                 }
                 1 => {
                     let n = tg.g.weighted(&[1, 2, 4, 3, 2]);
-                    let msgs = (0..n).map(|_| tg.msg(0)).collect();
+                    let mut msgs: Vec<Msg> = (0..n).map(|_| tg.msg(0)).collect();
+                    // sometimes a later message of the batch addresses the contract an earlier one creates
+                    let mut seen_inst = false;
+                    for m in msgs.iter_mut() {
+                        match m {
+                            Msg::Inst { .. } => seen_inst = true,
+                            Msg::Exec { c, .. } | Msg::Migrate { c, .. } | Msg::UpdateAdmin { c, .. } | Msg::ClearAdmin { c } if seen_inst && tg.g.chance(1, 2) => *c = CRef(252),
+                            _ => {}
+                        }
+                    }
+                    if n >= 2 && tg.g.chance(1, 6) {
+                        // ... or the batch is exactly that: instantiate, then call the new contract
+                        let first = tg.inst(0);
+                        let node = tg.node(0, false);
+                        msgs.truncate(n - 2);
+                        msgs.insert(0, Msg::Exec { c: CRef(252), node, funds: vec![] });
+                        msgs.insert(0, first);
+                    }
                     TxKind::Multi { sender: ARef::User(tg.g.below(N_USERS) as u8), msgs }
                 }
                 2 => {
